@@ -297,6 +297,95 @@ def run_arg_scenario(sccache, name, ci=9, swap=False):
         shutil.rmtree(d, ignore_errors=True)
 
 
+# ---- a header is saved while a compile that includes it is in flight ----
+RACE_VARIANTS = ['after', 'slow_after', 'during', 'before']
+
+
+def run_race(sccache, variant, ci=9):
+    """A `gcc` shim (the real gcc, except that ONE armed -E run also saves cfg.h: right after the preprocessor
+    finished / 0.3 s after / while the preprocessor process is still alive / just before it starts) makes the
+    interleaving deterministic.  The racy request itself is not judged; every LATER request, made when nothing is
+    being edited any more, must produce what gcc alone produces from the files as they then are.  The model
+    (Model/PpTimeline.v, C04_record_instant_sound) says the racy request must give up recording ("too new")."""
+    realcc = shutil.which('gcc')
+    d = tempfile.mkdtemp(prefix='vh-c04e-', dir='/dev/shm')
+    srv = None
+    try:
+        w = os.path.join(d, 'w')
+        os.makedirs(os.path.join(w, 'extra'))
+        os.makedirs(os.path.join(d, 'bin'))
+        armed = os.path.join(w, 'armed')
+        save = 'cp "%s/cfg.h.new" "%s/cfg.h"' % (w, w)
+        body = {
+            'after': '"%s" "$@"; rc=$?; %s; exit $rc' % (realcc, save),
+            'slow_after': '"%s" "$@"; rc=$?; sleep 0.3; %s; exit $rc' % (realcc, save),
+            'during': 'o=$(mktemp); "%s" "$@" > "$o"; rc=$?; %s; sleep 0.2; cat "$o"; rm -f "$o"; exit $rc' % (realcc, save),
+            'before': '%s; "%s" "$@"; exit $?' % (save, realcc),
+        }[variant]
+        shim = os.path.join(d, 'bin', 'gcc')
+        open(shim, 'w').write('#!/bin/sh\npre=\nfor a in "$@"; do [ "$a" = -E ] && pre=1; done\n'
+                              'if [ -n "$pre" ] && [ -e "%s" ]; then\n  rm -f "%s"\n  %s\nfi\nexec "%s" "$@"\n'
+                              % (armed, armed, body, realcc))
+        os.chmod(shim, 0o755)
+        open(os.path.join(w, 'a.c'), 'w').write('#include "cfg.h"\nint limit(void) { return CFG_LIMIT; }\n')
+        open(os.path.join(w, 'cfg.h'), 'w').write('#define CFG_LIMIT 100\n')
+        open(os.path.join(w, 'cfg.h.new'), 'w').write('#define CFG_LIMIT 200\n')
+        open(os.path.join(d, 'config'), 'w').write(cfg_toml(os.path.join(d, 'cache'), ci))
+        base = {'SCCACHE_CONF': os.path.join(d, 'config'), 'SCCACHE_SERVER_UDS': os.path.join(d, 'sock'),
+                'SCCACHE_IDLE_TIMEOUT': '0', 'SCCACHE_LOG': 'sccache::compiler=debug', 'SCCACHE_NO_DAEMON': '1'}
+        time.sleep(0.05)
+        log = open(os.path.join(d, 'server.log'), 'ab')
+        srv = subprocess.Popen([sccache], env=clean_env(dict(base, SCCACHE_START_SERVER='1')), stdout=log, stderr=log, cwd=w)
+        for _ in range(200):
+            if os.path.exists(os.path.join(d, 'sock')):
+                break
+            time.sleep(0.02)
+        judged = []
+
+        def check(what, args):
+            r1 = subprocess.run([realcc] + args + ['-o', 'direct.o'], cwd=w, env=clean_env({}), stdout=subprocess.PIPE,
+                                stderr=subprocess.STDOUT, timeout=120)
+            r2 = subprocess.run([sccache, shim] + args + ['-o', 'wrapped.o'], cwd=w, env=clean_env(base),
+                                stdout=subprocess.PIPE, stderr=subprocess.STDOUT, timeout=120)
+            rd = lambda n: open(os.path.join(w, n), 'rb').read() if os.path.exists(os.path.join(w, n)) else None
+            ok = r1.returncode == 0 and r2.returncode == 0 and rd('direct.o') is not None and rd('direct.o') == rd('wrapped.o')
+            judged.append((what, ok, open(os.path.join(w, 'cfg.h')).read().strip()))
+            for n in ('direct.o', 'wrapped.o'):
+                try:
+                    os.unlink(os.path.join(w, n))
+                except OSError:
+                    pass
+        check('cfg.h = 100, first compile', ['-c', 'a.c'])
+        check('cfg.h = 100, again', ['-c', 'a.c'])
+        mark = os.path.getsize(os.path.join(d, 'server.log'))
+        open(armed, 'w').write('')
+        subprocess.run([sccache, shim, '-Iextra', '-c', 'a.c', '-o', 'racy.o'], cwd=w, env=clean_env(base),
+                       stdout=subprocess.PIPE, stderr=subprocess.STDOUT, timeout=120)
+        fired = not os.path.exists(armed)
+        racy_log = open(os.path.join(d, 'server.log'), 'rb').read()[mark:].decode('utf-8', 'replace')
+        time.sleep(0.05)
+        check('cfg.h = 200, nothing is being edited any more (-Iextra)', ['-Iextra', '-c', 'a.c'])
+        check('cfg.h = 200, again (-Iextra)', ['-Iextra', '-c', 'a.c'])
+        check('cfg.h = 200, without the extra include path', ['-c', 'a.c'])
+        subprocess.run([sccache, '--stop-server'], env=clean_env(base), stdout=subprocess.DEVNULL, stderr=subprocess.DEVNULL, timeout=30)
+        try:
+            srv.wait(timeout=10)
+        except subprocess.TimeoutExpired:
+            srv.kill()
+        srv = None
+        return dict(variant=variant, fired=fired, judged=judged,
+                    racy_gave_up=('is too new' in racy_log or 'Disabling preprocessor cache mode' in racy_log),
+                    racy_recorded='Added result key' in racy_log)
+    finally:
+        if srv is not None:
+            try:
+                srv.kill()
+                srv.wait()
+            except Exception:
+                pass
+        shutil.rmtree(d, ignore_errors=True)
+
+
 def model_case(ci, edit):
     """the same scenario as a ppcache case for the extracted model (system headers, unchanged, are left out)"""
     init, edited, backdate, epoch_change = EDITS[edit]
@@ -313,7 +402,10 @@ def model_case(ci, edit):
 if __name__ == '__main__':
     import sys
     import json
-    if sys.argv[2] == 'args':
+    if sys.argv[2] == 'race':
+        for v in RACE_VARIANTS:
+            print(json.dumps(run_race(sys.argv[1], v)))
+    elif sys.argv[2] == 'args':
         for n in ARG_SCENARIOS:
             print(json.dumps(run_arg_scenario(sys.argv[1], n)))
     else:
